@@ -26,9 +26,8 @@ def run(chk):
     from qats.fatigue.corrections import goodman_haigh
     from scipy.special import gamma, gammainc, gammaincc
     chk.extra["rule"] = RULE
-    chk.partial += ["bilinear closed form of minersum_weibull: the algebra is generated and executed against the implementation and "
-                    "against a fine discretisation (measured to 2e-3); the equality with the integral is proved for the "
-                    "single-slope case only (Mathlib has no incomplete gamma function)",
+    chk.partial += ["bilinear closed form: proved equal to the split integral with the incomplete gamma functions defined as "
+                    "integrals (weibull_bilinear_closed_form); that scipy's gammainc/gammaincc compute those integrals is assumed",
                     "closed form == limit of arbitrarily fine discretisation: Riemann-sum convergence is measured, not proved"]
     rng = chk.rng
     drv = core.Driver()
